@@ -67,6 +67,36 @@ Proof. intros Hwf Hfm axes' Hax'. destruct (final_metadata_fields _ _ _ Hfm) as 
   apply in_map_iff in Hin. destruct Hin as [ax [Heq Hin]]. rewrite <- Heq. apply Hall. exact Hin. Qed.
 
 (* ---------- the statement ---------- *)
+Theorem write_then_read_layout k pre g md md' n e ov :
+  clean k pre -> wf_input g md n e -> final_metadata g md = Ok md' ->
+  let post := layout pre g (backfill (w_nids g) md (w_nprops g)) md' in
+  (exists tr, write_arrays k g md true ov (init pre) = (mkst (Some post) tr, Ok tt)) /\
+  validate_structure k (Some post) = Ok tt /\
+  read_to_memory k (Some post) true None None
+  = Ok (mkmg md' (w_nids g) (w_eids g)
+             (up_props (backfill (w_nids g) md (w_nprops g))) (up_props (w_eprops g))).
+Proof.
+  intros Hc Hwf Hfm. cbn zeta. destruct (final_metadata_fields _ _ _ Hfm) as [Hmn [Hme _]].
+  set (nps := backfill (w_nids g) md (w_nprops g)) in *.
+  assert (Hcn : alookup path_NODES (base_children pre) = None /\ alookup path_EDGES (base_children pre) = None).
+  { destruct pre as [[x|a0 ch0]|]; cbn [clean] in Hc; cbn; [contradiction | tauto | auto]. }
+  destruct Hcn as [Hcn Hce].
+  assert (Hval : validate_structure k (Some (layout pre g nps md')) = Ok tt).
+  { eapply (validate_layout k pre g nps md md' n e); eauto using wi_nshape, wi_eshape, wi_dtype, wi_int, wi_nprops, wi_eprops, wi_nstale, wi_estale.
+    eapply axes_ok_of; eauto. }
+  split; [|split; [exact Hval|]].
+  - apply (write_arrays_layout k pre g md md' true ov n Hc (wi_dtype _ _ _ _ Hwf) (wi_int _ _ _ _ Hwf)).
+    + unfold len0. rewrite (wi_nshape _ _ _ _ Hwf). reflexivity.
+    + apply (wf_props_ok n). exact (wi_nprops _ _ _ _ Hwf).
+    + apply (wf_props_ok e). exact (wi_eprops _ _ _ _ Hwf).
+    + exact Hfm.
+    + intros _. exact Hval.
+  - unfold read_to_memory, reader_init. rewrite Hval. cbn [rbind].
+    pose proof (read_layout k pre g nps md md' n e Hcn Hce (wi_nprops _ _ _ _ Hwf) (wi_eprops _ _ _ _ Hwf) Hmn Hme
+                  (wi_nstale _ _ _ _ Hwf) (wi_estale _ _ _ _ Hwf)) as Hr.
+    unfold read_to_memory, reader_init in Hr. cbn [rbind] in Hr. exact Hr.
+Qed.
+
 Theorem write_then_read k pre g md md' n e ov :
   clean k pre -> wf_input g md n e -> final_metadata g md = Ok md' ->
   exists tr post,
@@ -76,23 +106,6 @@ Theorem write_then_read k pre g md md' n e ov :
     = Ok (mkmg md' (w_nids g) (w_eids g)
                (up_props (backfill (w_nids g) md (w_nprops g))) (up_props (w_eprops g))).
 Proof.
-  intros Hc Hwf Hfm. destruct (final_metadata_fields _ _ _ Hfm) as [Hmn [Hme _]].
-  set (nps := backfill (w_nids g) md (w_nprops g)) in *.
-  assert (Hcn : alookup path_NODES (base_children pre) = None /\ alookup path_EDGES (base_children pre) = None).
-  { destruct pre as [[x|a0 ch0]|]; cbn [clean] in Hc; cbn; [contradiction | tauto | auto]. }
-  destruct Hcn as [Hcn Hce].
-  assert (Hval : validate_structure k (Some (layout pre g nps md')) = Ok tt).
-  { eapply (validate_layout k pre g nps md md' n e); eauto using wi_nshape, wi_eshape, wi_dtype, wi_int, wi_nprops, wi_eprops, wi_nstale, wi_estale.
-    eapply axes_ok_of; eauto. }
-  destruct (write_arrays_layout k pre g md md' true ov n Hc (wi_dtype _ _ _ _ Hwf) (wi_int _ _ _ _ Hwf)) as [tr Htr].
-  - unfold len0. rewrite (wi_nshape _ _ _ _ Hwf). reflexivity.
-  - apply (wf_props_ok n). exact (wi_nprops _ _ _ _ Hwf).
-  - apply (wf_props_ok e). exact (wi_eprops _ _ _ _ Hwf).
-  - exact Hfm.
-  - intros _. exact Hval.
-  - exists tr, (layout pre g nps md'). split; [exact Htr|]. split; [exact Hval|].
-    unfold read_to_memory, reader_init. rewrite Hval. cbn [rbind].
-    pose proof (read_layout k pre g nps md md' n e Hcn Hce (wi_nprops _ _ _ _ Hwf) (wi_eprops _ _ _ _ Hwf) Hmn Hme
-                  (wi_nstale _ _ _ _ Hwf) (wi_estale _ _ _ _ Hwf)) as Hr.
-    unfold read_to_memory, reader_init in Hr. cbn [rbind] in Hr. exact Hr.
+  intros Hc Hwf Hfm. destruct (write_then_read_layout k pre g md md' n e ov Hc Hwf Hfm) as [[tr Hw] [Hv Hr]].
+  eexists. eexists. split; [exact Hw|]. split; [exact Hv | exact Hr].
 Qed.
